@@ -86,6 +86,9 @@ type Config struct {
 	// node's components (in home this is where the configuration is collected
 	// from all components again and written to disk).
 	OnModified func()
+	// NoUpdatesLoop leaves the filtering module's updates loop out: the caller
+	// runs its body (Filter.VerifDrainInitializer) itself, as a scheduled task.
+	NoUpdatesLoop bool
 }
 
 // Node is an assembled node.
@@ -217,7 +220,11 @@ func New(cfg *Config) (n *Node, err error) {
 	n.Filter.SetEnabled(fc.FilteringEnabled)
 	// home: EnableFilters(false) before Start.
 	n.Filter.EnableFilters(false)
-	n.Filter.Start()
+	if cfg.NoUpdatesLoop {
+		n.Filter.VerifStartNoLoop()
+	} else {
+		n.Filter.Start()
+	}
 
 	// Query log and statistics.
 	ql, st := cfg.QueryLog, cfg.Stats
